@@ -119,6 +119,12 @@ def explore(chk: Check, tier: str, want: str):
             if out.exception:
                 raise MachineryError(f"run_contract raised {out.exception}")
             runs.append((contract, metas, cli, out))
+        # an immutable variable: the code the constructor returns differs from the runtime code of the artifact
+        contract, metas = testgen.gen_immutable_contract(rnd)
+        out = run_contract(contract)
+        if out.exception:
+            raise MachineryError(f"run_contract raised {out.exception}")
+        runs.append((contract, metas, (), out))
         # brute force on the reference machine
         cases, index = [], {}
         cid = 0
